@@ -94,7 +94,7 @@ def lake(args, timeout=3000):
     return p.returncode, p.stdout + p.stderr
 
 
-def build_and_audit(prop_id, targets, theorems, extract=True):
+def build_and_audit(prop_id, targets, theorems, extract=True, recheck=False):
     """Regenerate Gen/*, build the targets, audit axioms of the listed theorems.
 
     Returns dict(ok, build_ok, log, obligations, discharged, axioms{thm: [..]}, problems[..]).
@@ -142,6 +142,16 @@ def build_and_audit(prop_id, targets, theorems, extract=True):
                     res["discharged"] += 1
             if p.returncode != 0 and not res["problems"]:
                 res["problems"].append("audit file failed: " + out[-400:])
+        if recheck and rc == 0 and mods:
+            # thorough tier: replay the compiled property modules (and everything they import from this project)
+            # through leanchecker, the toolchain's independent kernel re-checker
+            try:
+                p = subprocess.run(["lake", "env", "leanchecker"] + mods, cwd=LEAN, capture_output=True, text=True, timeout=3000)
+                res["leanchecker"] = {"modules": mods, "rc": p.returncode, "tail": (p.stdout + p.stderr)[-300:]}
+                if p.returncode != 0:
+                    res["problems"].append("leanchecker rejected " + ", ".join(mods) + ": " + (p.stdout + p.stderr)[-300:])
+            except Exception as e:  # noqa
+                res["leanchecker"] = {"modules": mods, "rc": None, "tail": repr(e)}
     fb = forbidden_tokens()
     if fb:
         res["problems"].append("forbidden tokens: " + "; ".join(fb[:5]))
